@@ -86,3 +86,50 @@ fn c15_known_finding_span_overflows_f64() {
     let v = q.quantile();
     assert!((-1.7e308..=1.7e308).contains(&v), "quantile() = {v}");
 }
+
+// C07 / C15 (d2745a3): the average of two equal subnormal order statistics is that value.
+#[test]
+fn c07_c15_small_sample_average_stays_between_the_order_statistics() {
+    for x in [f64::from_bits(1), f64::from_bits(3), -f64::from_bits(5), f64::from_bits(f64::MIN_POSITIVE.to_bits() + 1)] {
+        let mut q = Quantile::new(0.5);
+        q.add(x);
+        q.add(x);
+        assert_eq!(q.quantile().to_bits(), x.to_bits(), "median of [{x:e}, {x:e}]");
+    }
+    let mut q = Quantile::new(0.25);
+    for _ in 0..4 {
+        q.add(5e-324);
+    }
+    assert_eq!(q.quantile(), 5e-324);
+}
+
+// C05 (known finding, not repaired): observations within a factor 8 of f64::MAX.
+#[test]
+#[ignore = "known finding: marker arithmetic overflows near f64::MAX"]
+fn c05_known_finding_heights_near_f64_max() {
+    let s = (2.0f64).powi(1021);
+    let mut big = Quantile::new(0.25);
+    let mut small = Quantile::new(0.25);
+    for x in [0., 0., 2., 3., 3., 2., 2., 2., 0.] {
+        big.add(x * s);
+        small.add(x);
+    }
+    assert_eq!(big.quantile(), small.quantile() * s);
+}
+
+// C17 (df519eb): the merge cross term must not overflow while the variance itself is representable.
+#[test]
+fn c17_merge_of_long_runs_of_large_values_stays_finite() {
+    use average::{Covariance, Merge, Variance};
+    let a: Variance = core::iter::repeat(-1e150).take(10_000).collect();
+    let b: Variance = core::iter::repeat(1e150).take(10_000).collect();
+    let mut m = a.clone();
+    m.merge(&b);
+    assert!((m.population_variance() / 1e300 - 1.).abs() < 1e-12, "{:e}", m.population_variance());
+    assert!(m.error().is_finite());
+    let ca: Covariance = core::iter::repeat((-1e150, 5e149)).take(10_000).collect();
+    let cb: Covariance = core::iter::repeat((1e150, -5e149)).take(10_000).collect();
+    let mut c = ca.clone();
+    c.merge(&cb);
+    assert!(c.population_variance_x().is_finite() && c.population_variance_y().is_finite());
+}
